@@ -10,7 +10,7 @@ ASSUMPTIONS = [
     'all times are multiples of 2^-10 s so every float operation in send_request is exact',
 ]
 RULE = ('timing suite: configurations (request_timeout None/values, P2/P2* above/below/equal to it, server timing, per-call timeout incl. 0) x '
-        'a transport whose send() returns at once or blocks for a while x schedules of k pending replies + final positive/negative/invalid/silence with every arrival placed before / exactly at / one tick '
+        'a transport whose send() returns at once or blocks for a while x first request of a fresh client / a later request of a client that already ran other schedules x schedules of k pending replies + final positive/negative/invalid/silence with every arrival placed before / exactly at / one tick '
         'after its window; the real client under the virtual clock vs udsdrv, and vs an independent Python recomputation of the windows. '
         'distinct = distinct input lines; non-trivial = at least one wait happened')
 TRUSTED_EXTRA = ['harness/stub.py: stub connection and virtual clock (connection contract stated in Uds/Model/Send.lean)']
@@ -46,7 +46,7 @@ def spec_run(rt, p2, p2s, percall, arr, sid):
             return waits, now + w, 'timeout', ncb
 
 
-def suite_timing(ctx):
+def suite_timing(ctx, sequences=True):
     from .. import clientlib as cl
     from udsoncan import Request
     s = Suite('timing')
@@ -98,11 +98,27 @@ def suite_timing(ctx):
                 single = ep2s
             cases.append((rt, p2, p2s, percall, tim, svc, sid, arr, rng.random() < 0.5))
     lines, impl = [], []
-    for (rt, p2, p2s, percall, tim, svc, sid, arr, cb) in cases:
+    # `seq` > 0: the request is sent on the client of the previous case (same configuration): whatever an earlier request left behind
+    # (a pending-response flag, a deadline) must not leak into the next one
+    by_cfg = {}
+    for c_ in cases:
+        by_cfg.setdefault(c_[:5], []).append(c_)
+    ordered = []
+    for key, group in by_cfg.items():
+        for j, c_ in enumerate(group):
+            ordered.append((c_, 0))
+        if sequences:
+            for j, c_ in enumerate(group):
+                ordered.append((c_[:8] + (group[0][8],), j + 1))     # the whole group again on one client (same callback setting)
+    client = conn = None
+    for ((rt, p2, p2s, percall, tim, svc, sid, arr, cb), seq) in ordered:
         cfg = cl.Cfg(rt=rt, p2=p2, p2s=p2s, cb=cb, tp2=tim[0] if tim else None, tp2s=tim[1] if tim else None)
         sf = 1 if svcs[svc].use_subfunction() else None
         line = 'send %s svc=%s sf=%s rspr=0 data=- timeout=%s arr=%s' % (cfg.line(), svc, onat(sf), onat(percall), cl.arrivals_str(arr))
-        client, conn = cl.make_client(cfg)
+        if seq <= 1:
+            client, conn = cl.make_client(cfg)
+        conn.stale = []
+        conn.pending = []
         conn.script = list(arr)
         conn.send_delay = rng.choice([0, 0, 1, 300, 6000])    # a transport whose send() blocks: the deadline counts from its return
         req = Request(svcs[svc], subfunction=sf)
@@ -120,7 +136,7 @@ def suite_timing(ctx):
         got_oc = 'resp' if m.startswith('resp:') else ('timeout' if m.startswith('raise:timeout') else
                                                       (m.split(' ')[0][6:] if m.startswith('raise:negative') else 'other'))
         got_end = float(obs.split(' end=')[1].split(' ')[0])
-        rec = {'site': 'send_request', 'input': line, 'rt': rt, 'percall': percall, 'send_blocks_for_ticks': conn.send_delay}
+        rec = {'site': 'send_request', 'input': line, 'rt': rt, 'percall': percall, 'send_blocks_for_ticks': conn.send_delay, 'nth_request_on_this_client': max(seq, 1)}
         if got_waits != [(float(a), float(b)) for a, b in waits]:
             s.fail(dict(rec, observed='waits %s' % got_waits, required='waits %s' % waits))
         elif got_oc != oc and not (oc == 'other' and got_oc not in ('resp', 'timeout')):
@@ -133,6 +149,7 @@ def suite_timing(ctx):
         if deadline is not None and got_end > deadline:
             s.fail(dict(rec, observed='end %s' % got_end, required='end <= deadline %s' % deadline))
         s.count('k=%d' % min(len(arr), 7))
+        s.count('request #%s on its client' % ('1' if seq <= 1 else '2+'))
         s.count('out=' + got_oc.split(':')[0])
     core.compare(s, lines, core.drv_batch(lines), impl, lambda i, o: 'W:' in o)
     for i in (0, len(lines) // 2, len(lines) - 1):
